@@ -140,4 +140,513 @@ theorem clampU64_range (v lo hi : Nat) (h : lo ≤ hi) :
   · omega
   · split <;> omega
 
+
+/-! ## Vocabulary of the property statement (used by `Props/C18.lean`) -/
+
+/-- The documented timeout range, with the property's literal numbers. -/
+def InRange (t : Nat) : Prop := 1000 ≤ t ∧ t ≤ 60000
+
+/-- "with either a result or an error": exactly one of the two members is present. -/
+def ExactlyOne (r : Response) : Prop := r.result.isSome = !r.error.isSome
+
+/-- The error code of a (possibly absent) response. -/
+def code? (o : Option Response) : Option Int := o.bind fun r => r.error.map (·.code)
+
+/-- Response shape demanded for one line. -/
+def ShapeOK (l : Line) (o : Option Response) : Prop :=
+  match l with
+  | .blank => o = none
+  | .unparsable =>
+    ∃ e, o = some { result := none, error := some e, id := .null } ∧ e.code = -32700
+  | .request r =>
+    match r.id with
+    | some i => ∃ resp, o = some resp ∧ resp.id = i ∧ ExactlyOne resp
+    | none => o = none
+
+/-- Position-wise relation between the input lines and the outputs (same length, related at
+every index). -/
+inductive Pointwise {α β : Type} (R : α → β → Prop) : List α → List β → Prop
+  | nil : Pointwise R [] []
+  | cons {a : α} {b : β} {as : List α} {bs : List β} :
+      R a b → Pointwise R as bs → Pointwise R (a :: as) (b :: bs)
+
+/-- A `get_status` request (any params, any id). -/
+def statusReq (p i : Json) : Line :=
+  .request { jsonrpc := "2.0", method := "get_status", params := p, id := some i }
+
+/-- The six built-in methods of the stdin entry point. -/
+def builtin : List String :=
+  ["set_mode", "set_quality", "set_stall_deselect", "set_conn_timeout", "get_status", "get_stats"]
+
+/-- "bad parameters" for the four setters, spelled out. -/
+def BadParams (m : String) (p : Json) : Prop :=
+  (m = "set_mode" ∧
+      ∀ s, (p.get "mode").bind Json.asStr = some s → s ≠ "classic" ∧ s ≠ "enhanced") ∨
+  ((m = "set_quality" ∨ m = "set_stall_deselect") ∧ (p.get "enabled").bind Json.asBool = none) ∨
+  (m = "set_conn_timeout" ∧ (p.get "ms").bind Json.asU64 = none)
+
+/-! ## Classification of `handle_method` outcomes -/
+
+theorem HM.ok_class {env : Env} {c : Config} {m : String} {p : Json} {out : Config × Except ErrObj Json}
+    (h : HM env c m p out) {v : Json} (hv : out.2 = .ok v) :
+    ¬ BadParams m p ∧ m ∈ builtin ∧ ¬ (m = "get_stats" ∧ env.stats = none) := by
+  cases h with
+  | modeOk md h1 h2 =>
+    subst h1
+    refine ⟨?_, by simp [builtin], by simp⟩
+    rintro (⟨_, hb⟩ | ⟨hb, _⟩ | ⟨hb, _⟩)
+    · have := hb _ h2
+      cases md <;> simp [Mode.toStr] at this
+    · simp at hb
+    · simp at hb
+  | qualityOk b h1 h2 =>
+    subst h1
+    refine ⟨?_, by simp [builtin], by simp⟩
+    rintro (⟨hb, _⟩ | ⟨_, hb⟩ | ⟨hb, _⟩)
+    · simp at hb
+    · simp [h2] at hb
+    · simp at hb
+  | stallOk b h1 h2 =>
+    subst h1
+    refine ⟨?_, by simp [builtin], by simp⟩
+    rintro (⟨hb, _⟩ | ⟨_, hb⟩ | ⟨hb, _⟩)
+    · simp at hb
+    · simp [h2] at hb
+    · simp at hb
+  | timeoutOk ms h1 h2 =>
+    subst h1
+    refine ⟨?_, by simp [builtin], by simp⟩
+    rintro (⟨hb, _⟩ | ⟨hb, _⟩ | ⟨_, hb⟩)
+    · simp at hb
+    · simp at hb
+    · simp [h2] at hb
+  | status h1 =>
+    subst h1
+    refine ⟨?_, by simp [builtin], by simp⟩
+    rintro (⟨hb, _⟩ | ⟨hb, _⟩ | ⟨hb, _⟩) <;> simp at hb
+  | statsSome j h1 h2 =>
+    subst h1
+    refine ⟨?_, by simp [builtin], by simp [h2]⟩
+    rintro (⟨hb, _⟩ | ⟨hb, _⟩ | ⟨hb, _⟩) <;> simp at hb
+  | _ => simp at hv
+
+theorem HM.error_class {env : Env} {c : Config} {m : String} {p : Json} {out : Config × Except ErrObj Json}
+    (h : HM env c m p out) {e : ErrObj} (he : out.2 = .error e) :
+    (e.code = -32602 ∧ BadParams m p) ∨ (e.code = -32601 ∧ m ∉ builtin) ∨
+      (e.code = -32603 ∧ m = "get_stats" ∧ env.stats = none) := by
+  cases h with
+  | modeMissing h1 h2 =>
+    simp at he; subst he
+    exact .inl ⟨rfl, .inl ⟨h1, by simp [h2]⟩⟩
+  | modeUnknown s h1 h2 h3 h4 =>
+    simp at he; subst he
+    refine .inl ⟨rfl, .inl ⟨h1, ?_⟩⟩
+    intro s' hs'
+    rw [h2] at hs'
+    cases hs'
+    exact ⟨h3, h4⟩
+  | qualityBad h1 h2 =>
+    simp at he; subst he
+    exact .inl ⟨rfl, .inr (.inl ⟨.inl h1, h2⟩)⟩
+  | stallBad h1 h2 =>
+    simp at he; subst he
+    exact .inl ⟨rfl, .inr (.inl ⟨.inr h1, h2⟩)⟩
+  | timeoutBad h1 h2 =>
+    simp at he; subst he
+    exact .inl ⟨rfl, .inr (.inr ⟨h1, h2⟩)⟩
+  | statsNone h1 h2 =>
+    simp at he; subst he
+    exact .inr (.inr ⟨rfl, h1, h2⟩)
+  | reserved h1 =>
+    simp at he; subst he
+    refine .inr (.inl ⟨rfl, ?_⟩)
+    rcases h1 with h1 | h1 <;> simp [builtin, h1]
+  | unknown h1 h2 h3 h4 h5 h6 _ _ =>
+    simp at he; subst he
+    exact .inr (.inl ⟨rfl, by simp [builtin, h1, h2, h3, h4, h5, h6]⟩)
+  | _ => simp at he
+
+
+/-! ## Response plumbing -/
+
+theorem finish_shape (id : Option Json) (res : Except ErrObj Json) :
+    match id with
+    | some i => ∃ resp, finish id res = some resp ∧ resp.id = i ∧ ExactlyOne resp
+    | none => finish id res = none := by
+  cases id with
+  | none => rfl
+  | some i =>
+    cases res with
+    | ok v => exact ⟨_, rfl, rfl, rfl⟩
+    | error e => exact ⟨_, rfl, rfl, rfl⟩
+
+theorem map_versionError_shape (id : Option Json) :
+    match id with
+    | some i => ∃ resp, id.map versionError = some resp ∧ resp.id = i ∧ ExactlyOne resp
+    | none => id.map versionError = none := by
+  cases id with
+  | none => rfl
+  | some i => exact ⟨_, rfl, rfl, rfl⟩
+
+theorem async_resp_finish (env : Env) (c : Config) (ctx : Option Ctx) (r : Request)
+    (hv : r.jsonrpc = Control.JSONRPC_VERSION) :
+    ∃ res, (dispatchAsync env c ctx (.request r)).2.2 = finish r.id res := by
+  unfold dispatchAsync
+  simp only [hv, ne_eq, not_true_eq_false, if_false]
+  cases ctx with
+  | none => exact ⟨_, rfl⟩
+  | some x =>
+    simp only
+    by_cases h1 : r.method = "subscribe"
+    · rw [if_pos h1]; exact ⟨_, rfl⟩
+    · rw [if_neg h1]
+      by_cases h2 : r.method = "unsubscribe"
+      · rw [if_pos h2]; exact ⟨_, rfl⟩
+      · rw [if_neg h2]
+        by_cases h3 : r.method = "get_subscription_count"
+        · rw [if_pos h3]
+          exact ⟨.ok (.obj [("count", Json.ofNat x.hub.entries.length)]), rfl⟩
+        · rw [if_neg h3]; exact ⟨_, rfl⟩
+
+theorem code_finish (id : Option Json) (res : Except ErrObj Json) (k : Int) :
+    code? (finish id res) = some k ↔ ∃ i e, id = some i ∧ res = .error e ∧ e.code = k := by
+  cases id with
+  | none => simp [finish, code?]
+  | some i =>
+    cases res with
+    | ok v => simp [finish, code?, Response.ok]
+    | error e => simp [finish, code?, Response.err]
+
+theorem code_version (id : Option Json) (k : Int) :
+    code? (id.map versionError) = some k ↔ (∃ i, id = some i) ∧ k = -32600 := by
+  cases id with
+  | none => simp [code?]
+  | some i =>
+    simp [code?, versionError, Response.err, ErrObj.new, Control.INVALID_REQUEST_eq]
+    omega
+
+/-! ## Exact outcomes of the well-typed calls -/
+
+theorem handleMethod_set_mode (env : Env) (c : Config) (p : Json) (md : Mode)
+    (hp : (p.get "mode").bind Json.asStr = some md.toStr) :
+    handleMethod env c "set_mode" p = (c.setMode md, .ok (.obj [("mode", .str md.toStr)])) := by
+  unfold handleMethod
+  simp only [if_true, hp]
+  cases md <;> simp [parseMode, Mode.toStr]
+
+theorem handleMethod_set_quality (env : Env) (c : Config) (p : Json) (b : Bool)
+    (hp : (p.get "enabled").bind Json.asBool = some b) :
+    handleMethod env c "set_quality" p = (c.setQuality b, .ok (.obj [("enabled", .bool b)])) := by
+  simp [handleMethod, hp]
+
+theorem handleMethod_set_stall (env : Env) (c : Config) (p : Json) (b : Bool)
+    (hp : (p.get "enabled").bind Json.asBool = some b) :
+    handleMethod env c "set_stall_deselect" p = (c.setStall b, .ok (.obj [("enabled", .bool b)])) := by
+  simp [handleMethod, hp]
+
+theorem handleMethod_set_conn_timeout (env : Env) (c : Config) (p : Json) (ms : Nat)
+    (hp : (p.get "ms").bind Json.asU64 = some ms) :
+    handleMethod env c "set_conn_timeout" p =
+      ((c.setConnTimeout ms).1, .ok (.obj [("ms", Json.ofNat (c.setConnTimeout ms).2)])) := by
+  simp [handleMethod, hp]
+
+theorem status_reply (env : Env) (c : Config) (p i : Json) :
+    dispatchInner env c (statusReq p i) = (c, some (Response.ok i (statusJson c.snapshot env.cw))) := by
+  simp [statusReq, dispatchInner, version_lit, handleMethod, finish]
+
+/-! ## Frames: which lines can touch which cell -/
+
+theorem dispatchInner_frame {α : Type} (f : Config → α) (nm : String)
+    (hmode : nm ≠ "set_mode" → ∀ (c : Config) md, f (c.setMode md) = f c)
+    (hq : nm ≠ "set_quality" → ∀ (c : Config) b, f (c.setQuality b) = f c)
+    (hs : nm ≠ "set_stall_deselect" → ∀ (c : Config) b, f (c.setStall b) = f c)
+    (ht : nm ≠ "set_conn_timeout" → ∀ (c : Config) ms, f (c.setConnTimeout ms).1 = f c)
+    (env : Env) (c : Config) (l : Line) (h : ∀ r, l = .request r → r.method ≠ nm) :
+    f (dispatchInner env c l).1 = f c := by
+  cases l with
+  | blank => rfl
+  | unparsable => rfl
+  | request r =>
+    have hne := h r rfl
+    by_cases hv : r.jsonrpc = "2.0"
+    · rw [dispatchInner_v2 env c r hv]
+      rcases (handleMethod_HM env c r.method r.params).config with
+        h0 | ⟨hm, md, h0⟩ | ⟨hm, b, h0⟩ | ⟨hm, b, h0⟩ | ⟨hm, ms, h0⟩
+      · simp only [h0]
+      · simp only [h0]; exact hmode (fun e => hne (hm.trans e.symm)) c md
+      · simp only [h0]; exact hq (fun e => hne (hm.trans e.symm)) c b
+      · simp only [h0]; exact hs (fun e => hne (hm.trans e.symm)) c b
+      · simp only [h0]; exact ht (fun e => hne (hm.trans e.symm)) c ms
+    · rw [dispatchInner_badVersion env c r hv]
+
+theorem runSync_frame {α : Type} (f : Config → α) (nm : String)
+    (hmode : nm ≠ "set_mode" → ∀ (c : Config) md, f (c.setMode md) = f c)
+    (hq : nm ≠ "set_quality" → ∀ (c : Config) b, f (c.setQuality b) = f c)
+    (hs : nm ≠ "set_stall_deselect" → ∀ (c : Config) b, f (c.setStall b) = f c)
+    (ht : nm ≠ "set_conn_timeout" → ∀ (c : Config) ms, f (c.setConnTimeout ms).1 = f c)
+    (c : Config) (ls : List (Env × Line))
+    (h : ∀ el ∈ ls, ∀ q, el.2 = .request q → q.method ≠ nm) :
+    f (runSync c ls).1 = f c := by
+  induction ls generalizing c with
+  | nil => rfl
+  | cons el rest ih =>
+    simp only [runSync]
+    rw [ih _ (fun el' hel => h el' (List.mem_cons_of_mem _ hel))]
+    exact dispatchInner_frame f nm hmode hq hs ht el.1 c el.2 (h el (List.mem_cons_self ..))
+
+
+/-! ## Which calls give which error code -/
+
+theorem BadParams.setter {m : String} {p : Json} (h : BadParams m p) :
+    m ∈ builtin ∧ m ≠ "get_stats" := by
+  rcases h with ⟨h, _⟩ | ⟨h | h, _⟩ | ⟨h, _⟩ <;> subst h <;> simp [builtin]
+
+theorem hm_code_602 (env : Env) (c : Config) (m : String) (p : Json) :
+    (∃ e, (handleMethod env c m p).2 = .error e ∧ e.code = -32602) ↔ BadParams m p := by
+  have H := handleMethod_HM env c m p
+  constructor
+  · rintro ⟨e, he, hc⟩
+    rcases H.error_class he with ⟨_, hb⟩ | ⟨h, _⟩ | ⟨h, _⟩
+    · exact hb
+    · omega
+    · omega
+  · intro hb
+    cases hout : (handleMethod env c m p).2 with
+    | ok v => exact absurd hb (H.ok_class hout).1
+    | error e =>
+      refine ⟨e, rfl, ?_⟩
+      rcases H.error_class hout with ⟨h, _⟩ | ⟨_, h⟩ | ⟨_, h, _⟩
+      · exact h
+      · exact absurd hb.setter.1 h
+      · exact absurd h hb.setter.2
+
+theorem hm_code_601 (env : Env) (c : Config) (m : String) (p : Json) :
+    (∃ e, (handleMethod env c m p).2 = .error e ∧ e.code = -32601) ↔ m ∉ builtin := by
+  have H := handleMethod_HM env c m p
+  constructor
+  · rintro ⟨e, he, hc⟩
+    rcases H.error_class he with ⟨h, _⟩ | ⟨_, hb⟩ | ⟨h, _⟩
+    · omega
+    · exact hb
+    · omega
+  · intro hb
+    cases hout : (handleMethod env c m p).2 with
+    | ok v => exact absurd (H.ok_class hout).2.1 hb
+    | error e =>
+      refine ⟨e, rfl, ?_⟩
+      rcases H.error_class hout with ⟨_, h⟩ | ⟨h, _⟩ | ⟨_, h, _⟩
+      · exact absurd h.setter.1 hb
+      · exact h
+      · subst h; simp [builtin] at hb
+
+theorem hm_code_603 (env : Env) (c : Config) (m : String) (p : Json) :
+    (∃ e, (handleMethod env c m p).2 = .error e ∧ e.code = -32603) ↔
+      (m = "get_stats" ∧ env.stats = none) := by
+  have H := handleMethod_HM env c m p
+  constructor
+  · rintro ⟨e, he, hc⟩
+    rcases H.error_class he with ⟨h, _⟩ | ⟨h, _⟩ | ⟨_, hb⟩
+    · omega
+    · omega
+    · exact hb
+  · intro hb
+    cases hout : (handleMethod env c m p).2 with
+    | ok v => exact absurd hb (H.ok_class hout).2.2
+    | error e =>
+      refine ⟨e, rfl, ?_⟩
+      rcases H.error_class hout with ⟨_, h⟩ | ⟨_, h⟩ | ⟨h, _⟩
+      · exact absurd hb.1 h.setter.2
+      · rw [hb.1] at h; simp [builtin] at h
+      · exact h
+
+theorem hm_codes (env : Env) (c : Config) (m : String) (p : Json) (e : ErrObj)
+    (he : (handleMethod env c m p).2 = .error e) :
+    e.code = -32602 ∨ e.code = -32601 ∨ e.code = -32603 := by
+  rcases (handleMethod_HM env c m p).error_class he with ⟨h, _⟩ | ⟨h, _⟩ | ⟨h, _⟩
+  · exact .inl h
+  · exact .inr (.inl h)
+  · exact .inr (.inr h)
+
+/-- The error code of the stdin entry point on a version-2.0 request. -/
+theorem code_v2 (env : Env) (c : Config) (r : Request) (hv : r.jsonrpc = "2.0") (k : Int) :
+    code? (dispatchInner env c (.request r)).2 = some k ↔
+      (∃ i, r.id = some i) ∧
+        ∃ e, (handleMethod env c r.method r.params).2 = .error e ∧ e.code = k := by
+  rw [dispatchInner_v2 env c r hv, code_finish]
+  constructor
+  · rintro ⟨i, e, hi, he, hc⟩; exact ⟨⟨i, hi⟩, e, he, hc⟩
+  · rintro ⟨⟨i, hi⟩, e, he, hc⟩; exact ⟨i, e, hi, he, hc⟩
+
+theorem code_badVersion (env : Env) (c : Config) (r : Request) (hv : r.jsonrpc ≠ "2.0") (k : Int) :
+    code? (dispatchInner env c (.request r)).2 = some k ↔ (∃ i, r.id = some i) ∧ k = -32600 := by
+  rw [dispatchInner_badVersion env c r hv, code_version]
+
+theorem code_blank (env : Env) (c : Config) (k : Int) :
+    code? (dispatchInner env c .blank).2 ≠ some k := by
+  simp [dispatchInner, code?]
+
+theorem code_unparsable (env : Env) (c : Config) :
+    code? (dispatchInner env c .unparsable).2 = some (-32700) := by
+  simp [dispatchInner, code?, parseErrorResponse, Response.err, Control.PARSE_ERROR_eq]
+
+
+/-! ## Concurrent view: the step invariant -/
+
+def Conc.CellsOK (s : Conc) : Prop := ∀ v ∈ s.cells.timeout, InRange v
+def Conc.TasksOK (s : Conc) : Prop :=
+  ∀ t p, s.tasks t = .snapping p → ∀ v, p.timeout = some v → InRange v
+def Conc.Inv (s : Conc) : Prop := s.CellsOK ∧ s.TasksOK
+
+def EventOK : Event → Prop
+  | .timeoutApplied _ ms a => a = clampU64 ms 1000 60000 ∧ InRange a
+  | .snapshot _ snap => InRange snap.timeout
+
+theorem clamp_inRange (ms : Nat) :
+    InRange (clampU64 ms Cfg.CONN_TIMEOUT_MS_MIN Cfg.CONN_TIMEOUT_MS_MAX) := by
+  simp only [Cfg.CONN_TIMEOUT_MS_MIN_eq, Cfg.CONN_TIMEOUT_MS_MAX_eq]
+  exact clampU64_range ms 1000 60000 (by omega)
+
+theorem setTask_same (tasks : Nat → Task) (t : Nat) (x : Task) : setTask tasks t x t = x := by
+  simp [setTask]
+
+theorem setTask_snapping {tasks : Nat → Task} {t : Nat} {x : Task} {t' : Nat} {p : Partial}
+    (h : setTask tasks t x t' = .snapping p) :
+    (t' = t ∧ x = .snapping p) ∨ (t' ≠ t ∧ tasks t' = .snapping p) := by
+  unfold setTask at h
+  split at h
+  · exact .inl ⟨‹_›, h⟩
+  · exact .inr ⟨‹_›, h⟩
+
+theorem Partial.complete_timeout {p : Partial} {snap : Snapshot} (h : p.complete = some snap) :
+    p.timeout = some snap.timeout := by
+  unfold Partial.complete at h
+  split at h
+  · rename_i ht; cases h; simp [ht]
+  · cases h
+
+theorem Conc.step_inv {s s' : Conc} {a : Act} {ev : Option Event} (hinv : s.Inv)
+    (h : s.step a = some (s', ev)) : s'.Inv ∧ ∀ e, ev = some e → EventOK e := by
+  obtain ⟨hc, ht⟩ := hinv
+  cases a with
+  | call t op =>
+    simp only [Conc.step] at h
+    split at h
+    · -- idle
+      have key : ∀ x : Task, (∀ p, x = .snapping p → p.timeout = none) →
+          (Conc.mk s.cells (setTask s.tasks t x)).Inv := by
+        intro x hx
+        refine ⟨hc, ?_⟩
+        intro t' p hp v hv
+        rcases setTask_snapping hp with ⟨_, hx'⟩ | ⟨_, hold⟩
+        · rw [hx p hx'] at hv; cases hv
+        · exact ht t' p hold v hv
+      cases op <;> simp only [Option.some.injEq, Prod.mk.injEq] at h <;> obtain ⟨rfl, rfl⟩ := h
+      all_goals refine ⟨key _ ?_, by simp⟩
+      all_goals intro p hp
+      all_goals first
+        | (cases hp; rfl)
+        | cases hp
+    · cases h
+  | store t =>
+    simp only [Conc.step] at h
+    split at h
+    · -- storing op
+      have tasks_ok : ∀ t' p, setTask s.tasks t .idle t' = .snapping p →
+          ∀ v, p.timeout = some v → InRange v := by
+        intro t' p hp v hv
+        rcases setTask_snapping hp with ⟨_, hx⟩ | ⟨_, hold⟩
+        · cases hx
+        · exact ht t' p hold v hv
+      rename_i op _
+      cases op <;> simp only [Option.some.injEq, Prod.mk.injEq, reduceCtorEq] at h
+      case setMode m _ => obtain ⟨rfl, rfl⟩ := h; exact ⟨⟨hc, tasks_ok⟩, by simp⟩
+      case setQuality b _ => obtain ⟨rfl, rfl⟩ := h; exact ⟨⟨hc, tasks_ok⟩, by simp⟩
+      case setStall b _ => obtain ⟨rfl, rfl⟩ := h; exact ⟨⟨hc, tasks_ok⟩, by simp⟩
+      case setTimeout ms _ =>
+        obtain ⟨rfl, rfl⟩ := h
+        have hr := clamp_inRange ms
+        refine ⟨⟨?_, tasks_ok⟩, ?_⟩
+        · intro v hv
+          simp only [List.mem_cons] at hv
+          rcases hv with rfl | hv
+          · exact hr
+          · exact hc v hv
+        · intro e he
+          cases he
+          exact ⟨by simp [Cfg.CONN_TIMEOUT_MS_MIN_eq, Cfg.CONN_TIMEOUT_MS_MAX_eq], hr⟩
+    · cases h
+  | load t f k =>
+    simp only [Conc.step] at h
+    split at h
+    · rename_i p hp
+      have key : ∀ p' : Partial, (∀ v, p'.timeout = some v → InRange v) →
+          (Conc.mk s.cells (setTask s.tasks t (.snapping p'))).Inv := by
+        intro p' hp'
+        refine ⟨hc, ?_⟩
+        intro t' q hq v hv
+        rcases setTask_snapping hq with ⟨_, hx⟩ | ⟨_, hold⟩
+        · cases hx; exact hp' v hv
+        · exact ht t' q hold v hv
+      have old := ht t p hp
+      cases f <;> simp only [Option.bind_eq_some_iff, Option.some.injEq, Prod.mk.injEq] at h <;>
+        obtain ⟨x, hx, rfl, rfl⟩ := h
+      case timeout =>
+        refine ⟨key _ ?_, by simp⟩
+        intro v hv
+        simp only [Option.some.injEq] at hv
+        subst hv
+        exact hc x (List.mem_of_getElem? hx)
+      all_goals exact ⟨key _ old, by simp⟩
+    · cases h
+  | ret t =>
+    simp only [Conc.step] at h
+    split at h
+    · rename_i p hp
+      split at h
+      · rename_i snap hsnap
+        simp only [Option.some.injEq, Prod.mk.injEq] at h
+        obtain ⟨rfl, rfl⟩ := h
+        refine ⟨⟨hc, ?_⟩, ?_⟩
+        · intro t' q hq v hv
+          rcases setTask_snapping hq with ⟨_, hx⟩ | ⟨_, hold⟩
+          · cases hx
+          · exact ht t' q hold v hv
+        · intro e he
+          cases he
+          exact ht t p hp _ (Partial.complete_timeout hsnap)
+      · cases h
+    · cases h
+
+
+theorem Conc.run_inv (s : Conc) (acts : List Act) (hinv : s.Inv) :
+    (s.run acts).1.Inv ∧ ∀ e ∈ (s.run acts).2, EventOK e := by
+  induction acts generalizing s with
+  | nil => exact ⟨hinv, by simp [Conc.run]⟩
+  | cons a rest ih =>
+    simp only [Conc.run]
+    cases hstep : s.step a with
+    | none => exact ih s hinv
+    | some r =>
+      obtain ⟨s', ev⟩ := r
+      obtain ⟨hinv', hev⟩ := Conc.step_inv hinv hstep
+      obtain ⟨h1, h2⟩ := ih s' hinv'
+      refine ⟨h1, ?_⟩
+      cases ev with
+      | none => exact h2
+      | some e =>
+        intro e' he'
+        simp only [List.mem_cons] at he'
+        rcases he' with rfl | he'
+        · exact hev _ rfl
+        · exact h2 e' he'
+
+theorem Conc.init_inv (c : Config) (h : InRange c.timeout) : (Conc.init c).Inv := by
+  refine ⟨?_, ?_⟩
+  · intro v hv
+    simp only [Conc.init, Cells.ofConfig, List.mem_singleton] at hv
+    subst hv
+    exact h
+  · intro t p hp
+    simp [Conc.init] at hp
+
 end Srtla.Control
